@@ -60,6 +60,10 @@ type Step struct {
 	NSLabels    map[string]string `json:"nsLabels,omitempty"`
 	NoNamespace bool              `json:"noNamespace,omitempty"`
 	Attrs       map[string]string `json:"attrs,omitempty"`
+	// Handles: for composite operations recorded with World.Record (e.g. a CNI DEL), every handle
+	// whose addresses the operation is entitled to release.
+	Handles []string `json:"handles,omitempty"`
+	Note    string   `json:"note,omitempty"`
 }
 
 // OpRec is the record of one executed logical operation (client boundary).
@@ -155,6 +159,14 @@ func (o *OpRec) mayRelease(a, h string) bool {
 		}
 	case KReleaseByHandle:
 		return sanitizeHandle(o.Step.Handle) == h
+	}
+	for _, x := range o.Step.Handles {
+		if sanitizeHandle(x) == h {
+			return true
+		}
+	}
+	if _, own := o.Acquired[a]; own && len(o.Step.Handles) > 0 {
+		return true // a composite operation rolling back what it allocated itself
 	}
 	return false
 }
@@ -369,6 +381,38 @@ func (w *World) Exec(lc *LClient, st Step) *OpRec {
 	}
 	return rec
 }
+
+// Record runs fn as one logical operation of the given casstore client (used for composite calls
+// such as the CNI plugin's ADD/DEL, which create their own IPAM client): every datastore call and
+// committed write made through bc while fn runs is attributed to the returned record.
+func (w *World) Record(bc *casstore.Client, clientID int, host string, st Step, fn func() error) *OpRec {
+	rec := &OpRec{Client: clientID, Host: host, Step: st}
+	w.mu.Lock()
+	rec.ID = len(w.ops)
+	w.ops = append(w.ops, rec)
+	w.mu.Unlock()
+	bc.Tag = rec
+	rec.Call = w.Tick()
+	err := fn()
+	rec.Return = w.Tick()
+	bc.Tag = nil
+	rec.err = err
+	if err != nil {
+		rec.Err = err.Error()
+		if len(rec.Err) > 300 {
+			rec.Err = rec.Err[:300]
+		}
+		rec.ErrKind = classify(err)
+	}
+	if bc.Dead() {
+		rec.Crashed = true
+	}
+	return rec
+}
+
+// NoteDS lets a custom casstore PostOp hook feed the per-operation counters (conflicts seen,
+// hard faults) of a record created by Record.
+func (o *OpRec) NoteDS(conflict, hardFault bool) { o.noteDS(conflict, hardFault) }
 
 // Ops returns the recorded operations in start order.
 func (w *World) Ops() []*OpRec {
